@@ -21,7 +21,8 @@ ID = "C16"
 ENGINE = "eqlmc-E1"
 RULE = ("cases = (inner collections of the parents, selection, extra condition, caching, evaluation number), all "
         "combinations; non-trivial = some but not all (parent, element) pairs are expected")
-ASSUMPTIONS = ["elements are non-falsy integers (falsy elements: C19); strings are not used as collections"]
+ASSUMPTIONS = ["elements of collections are non-falsy integers (falsy elements: C19), scalar inner values include the "
+               "falsy ones; strings are not used as collections"]
 
 E = ("fl", A(X, "items"))
 SELS = {"e": (E,), "pe": (X, E), "ep": (E, X), "pep": (X, E, A(X, "p"))}
@@ -105,9 +106,29 @@ SUBPARENTS = {
 }
 
 
+FALSY = {"f:0": 0, "f:None": None, "f:False": False, "f:0.0": 0.0}     # (written as keys: 0 == False == 0.0 as case keys)
+FALSY_SCALARS = tuple(FALSY)
+FALSY_CONDS = ("none", "parent", "const", "or")      # (no ordering comparisons: None is not ordered)
+
+
+def falsy_scalar_cases(tier):
+    """a non-iterable inner value counts as ONE element - also when it is falsy (0, None, False, 0.0)"""
+    others = [(), (1,), (2, 0), 3]
+    for f in FALSY_SCALARS:
+        combos = [(f,)] + [(f, o) for o in others] + [(o, f) for o in others] + [(f, g) for g in FALSY_SCALARS]
+        if tier == "thorough":
+            combos += [(o, f, o2) for o in others for o2 in others]
+        for combo in combos:
+            for sk in SELS:
+                for ck in FALSY_CONDS:
+                    for caching in (True, False):
+                        yield (combo, sk, ck, caching)
+
+
 def cases(tier, inst):
     yield from friend_cases(tier)
     yield from subparent_cases(tier)
+    yield from falsy_scalar_cases(tier)
     seen = set()
     for combo in worlds(tier):
         if combo in seen:
@@ -138,7 +159,8 @@ def wspec_of(combo):
                                     for i, inner in enumerate(combo[2:]))),)
     if combo and combo[0] == "obj":
         return (("P", "Item", tuple((("p", i % 2 + 1), ("items", ())) for i in range(len(combo) - 1))),)
-    return (("P", "Item", tuple((("p", i % 2 + 1), ("items", inner)) for i, inner in enumerate(combo))),)
+    return (("P", "Item", tuple((("p", i % 2 + 1), ("items", ("raw!", FALSY[inner]) if inner in FALSY else inner))
+                                for i, inner in enumerate(combo))),)
 
 
 def query_of(case):
@@ -171,7 +193,7 @@ def run_case(case, inst):
             exp = [(el, po) if sk == "ep_sub" else (el,) for po, el in pairs]
         else:
             exp = [tuple(ref.value(s, env) for s in q[3]) for env in ref.solutions(q)]
-        total = sum(len(i) if isinstance(i, tuple) else 1 for i in combo if not isinstance(i, str))
+        total = sum(len(i) if isinstance(i, tuple) else 1 for i in combo if not isinstance(i, str) or i in FALSY)
         try:
             obj, b = Q.build(q, world, inst)
             sel = b.sel[q]
@@ -195,7 +217,8 @@ def run_case(case, inst):
     res = {"ok": True, "nontrivial": 0 < len(exp) < total, "transitions": 2,
            "tags": [f"sel={sk}", f"cond={ck}", f"caching={'on' if caching else 'off'}", f"parents={len(combo)}"]
                    + (["repeated_in_one_collection"] if any(isinstance(i, tuple) and len(set(i)) < len(i) for i in combo) else [])
-                   + (["scalar_inner"] if any(not isinstance(i, tuple) for i in combo) else []),
+                   + (["scalar_inner"] if any(not isinstance(i, tuple) for i in combo) else [])
+                   + (["falsy_scalar_inner"] if any(isinstance(i, str) and i in FALSY for i in combo) else []),
            "outcome": str(len(exp))}
     for name, got in (("eval1", got1), ("eval2", got2)):
         d = diff_rows(got, exp, count=multiset)
